@@ -87,6 +87,18 @@ def check(ctx):
     ctx.ob("order", "group order private<public<relay<other", ok, msg="extend order in control flow: %s" % names)
     for s in ext:
         ctx.ob("order", "extends the result vector", render(r.site_expr(s)[2][0]) == "result", s.loc(), render(r.site_expr(s)[2][0]))
+    # the delay anchor of the last group (`result.last()`) must be read after every earlier group has been appended; the
+    # last group's delay is derived from that anchor
+    lasts = [s for s in r.call_sites(r"core::slice::<impl \[T\]>::last$|core::slice::last$|slice::<impl \[T\]>::last$")]
+    if ok and lasts:
+        for s in lasts:
+            for gname in ("private", "public", "relay"):
+                lib.precedes(ctx, "order", "delay anchor read after %s group appended" % gname, r, [pos[gname].bb], [s.bb],
+                             "result.extend(%s) precedes result.last()" % gname, s.loc())
+        e = render(r.site_expr(pos["other"]))
+        ctx.ob("order", "last group's delays derive from the anchor", "slice::last(" in e, pos["other"].loc(), e[:220])
+    else:
+        ctx.note("rank_dials: no result.last() anchor found; anchor-order rule not applicable")
     rets = [mir.Site(r, x[1], x[2]) for x in r.defs[0]]
     ctx.ob("order", "returns result", len(rets) == 1 and render(r.site_expr(rets[0])) == "result", msg=str([render(r.site_expr(s)) for s in rets]))
     # ---- group_delays
